@@ -160,12 +160,27 @@ func c32ops(pre topics.PredefinedTopics, clientID string) []c32op {
 
 // every operation runs on a fresh session (a refused operation may legitimately end the session)
 func runC32(t *testing.T, cfgIdx int, clientID string) (n int, outcome string, vs []explore.Violation, herr string) {
-	pre := c32config(cfgIdx)
 	var outs []string
-	for _, op := range c32ops(pre, clientID) {
+	for _, op := range c32ops(c32config(cfgIdx), clientID) {
 		op := op
+		pre := c32config(cfgIdx) // a fresh configuration object per run (sessions may write into it)
 		res, _ := explore.Bubble(t, nil, func(s *vsched.Sched) (string, []explore.Violation) {
 			s.NoChoice = true
+			// the gateway serves every client from one configuration object: a session of the *other* client on the
+			// same object comes first (connect, one predefined publish, disconnect)
+			other := "c1"
+			if clientID == "c1" {
+				other = "c2"
+			}
+			cfg0 := c16cfg()
+			cfg0.ClientID = other
+			cfg0.Predefined = pre
+			st0 := stack.New(s, cfg0)
+			st0.Dial()
+			st0.Go("Connect", st0.C.Connect)
+			st0.Go("PublishPredefined", func() error { return st0.C.PublishPredefined(1, []byte("o"), 0, false) })
+			st0.Go("Disconnect", st0.C.Disconnect)
+			st0.Finish()
 			cfg := c16cfg()
 			cfg.ClientID = clientID
 			cfg.Predefined = pre
@@ -266,7 +281,7 @@ func TestC32(t *testing.T) {
 	rep.Coverage["sessions"] = evals
 	rep.Coverage["exhaustive"] = true
 	rep.Coverage["samples"] = samples
-	rep.Coverage["rule"] = "all 81 shared predefined configurations {c1,*} x id{1,2} -> {absent,p/1,p/2} x client id {c1,c2}; each operation on a fresh real client + real gateway session + broker model: PublishPredefined with raw ids 1..3 and with ids derived by name through GetTopicID (as bisquitt-pub does) at QoS 0/1, Publish on 2-byte names (ASCII, with '/', 2-byte UTF-8 characters), SubscribePredefined 1..3 and Subscribe on the 2-byte names each followed by broker messages (QoS 0/1) on the subscribed name; reference: client-specific entry first, then \"*\". The broker must see exactly the name the client meant (nothing for an id that denotes nothing) and the handler must get the broker's name. distinct_nontrivial = distinct per-configuration logs"
+	rep.Coverage["rule"] = "all 81 shared predefined configurations {c1,*} x id{1,2} -> {absent,p/1,p/2} x client id {c1,c2}; each operation on a fresh real client + real gateway session + broker model, after a session of the other client id on the same configuration object: PublishPredefined with raw ids 1..3 and with ids derived by name through GetTopicID (as bisquitt-pub does) at QoS 0/1, Publish on 2-byte names (ASCII, with '/', 2-byte UTF-8 characters), SubscribePredefined 1..3 and Subscribe on the 2-byte names each followed by broker messages (QoS 0/1) on the subscribed name; reference: client-specific entry first, then \"*\". The broker must see exactly the name the client meant (nothing for an id that denotes nothing) and the handler must get the broker's name. distinct_nontrivial = distinct per-configuration logs"
 	rep.Assumptions = []string{"default schedule, lossless link", "client and gateway share one configuration object (as the property states)"}
 	rep.Finish()
 }
